@@ -89,6 +89,7 @@ SeedOK(sd) ==
     /\ (Universe = "guards") => (sd.n = 1 /\ sd.ro = NoOwner /\ sd.e1 = "none")
     /\ (Universe = "atten") => (sd.n < MaxBlocks /\ sd.e2 = "none" /\ sd.ro # sd.n)
     /\ (Universe = "passes") => (sd.n >= 2 /\ sd.ro = NoOwner)
+    /\ (Universe = "noauth") => (sd.n = 1 /\ sd.ro = NoOwner /\ sd.e1 = "none" /\ sd.e2 = "none")
 
 PickChecks(sd) ==
     \E rs \in ScopeMenu, co \in Owners(MaxBlocks), k \in Kinds, qb \in QBodies, cs \in ScopeMenu, bs \in ScopeMenu :
@@ -200,6 +201,14 @@ PickPasses(sd) ==
            \* the budget rides in the `scope` field of the (unused) appended block: max_iterations = Passes - 1 + delta
            /\ extb' = [NoBlock EXCEPT !.ext = "budget", !.scope = {PassesOf(P) + delta - 1}]
 
+\* an authorizer WITHOUT a token (AuthorizerBuilder::build_unauthenticated): every scope word is still
+\* meaningful (authority and previous name no block, a key names none)
+PickNoAuth(sd) ==
+    \E rs \in ScopeMenu, k \in Kinds, qb \in QBodies, cs \in ScopeMenu, as \in ScopeMenu, p1 \in PolMenu :
+        /\ prog' = [blocks |-> <<>>,
+                    authz |-> MkAuthz(as, <<DeriveRule(rs)>>, <<Chk(k, <<Q(qb, cs)>>)>>, <<p1, Pol("deny", <<Q(<<>>, {})>>)>>)]
+        /\ extb' = NoBlock
+
 NoProg == [blocks |-> <<MkBlock(0, "none", {}, <<>>, <<>>)>>, authz |-> MkAuthz({}, <<>>, <<>>, <<AllowTrue>>)]
 
 Init ==
@@ -216,6 +225,7 @@ Next ==
          [] Universe = "atten"    -> PickAtten(seed)
          [] Universe = "guards"   -> PickGuards(seed)
          [] Universe = "passes"   -> PickPasses(seed)
+         [] Universe = "noauth"   -> PickNoAuth(seed)
 
 Spec == Init /\ [][Next]_vars
 
@@ -249,6 +259,7 @@ ResultOf(P) ==
      failed |-> {[owner |-> x[1], idx |-> x[2]] : x \in a.failed},
      world |-> {[o |-> e.o, p |-> e.f.p, a |-> e.f.a] : e \in W},
      q_default |-> QueryResult(P, W, R(Atom("r", <<X>>), <<F(X)>>, {}), QueryTrust(P, {})),
+     q_one     |-> ExactlyOne(QueryResult(P, W, R(Atom("r", <<X>>), <<F(X)>>, {}), QueryTrust(P, {}))),
      q_all     |-> QueryResult(P, W, R(Atom("r", <<X>>), <<F(X)>>, {}), QueryAllTrust(P, {})),
      q_d_all   |-> QueryResult(P, W, R(Atom("r", <<X>>), <<D(X)>>, {}), QueryAllTrust(P, {}))]
 
